@@ -72,6 +72,7 @@ impl ProcfsResolver {
 }
 //@item src/procfs.rs :: enum ProcfsBase | sub.ProcfsBase
 impl ProcfsBase {
+//@frozen src/procfs.rs :: impl ProcfsBase fn into_path
     /// procfs.rs ProcfsBase::into_path (not extracted: iterator chain with closures; assumed):
     /// a relative path without '..' ("." / "self" / "thread-self" / "self/task/<tid>")
     #[verifier::external_body]
